@@ -112,28 +112,41 @@ func (e *Env) ident(name string) Term {
 
 func (e *Env) localCell(name string) (Term, bool) {
 	fv := e.fv
-	a, ok := fv.localNames[name]
-	if !ok {
-		return Term{}, false
-	}
-	et := a.Type().Underlying().(*types.Pointer).Elem()
-	if fv.escapes[a] {
-		addr, ok := fv.vals[a]
-		if !ok {
-			return Term{}, false
+	// several cells may share a source name (shadowing, sibling scopes): prefer the
+	// one that is live in the current state, latest declaration first.
+	var cands []*ssa.Alloc
+	if a, ok := fv.localNames[name]; ok {
+		cands = append(cands, a)
+		for k := 1; ; k++ {
+			b, ok := fv.localNames[fmt.Sprintf("%s#%d", name, k)]
+			if !ok {
+				break
+			}
+			cands = append(cands, b)
 		}
-		v := fv.typedLoad(e.st, addr, et)
-		v.T = et
+	}
+	for i := len(cands) - 1; i >= 0; i-- {
+		a := cands[i]
+		et := a.Type().Underlying().(*types.Pointer).Elem()
+		if fv.escapes[a] {
+			addr, ok := fv.vals[a]
+			if !ok {
+				continue
+			}
+			v := fv.typedLoad(e.st, addr, et)
+			v.T = et
+			return v, true
+		}
+		v, ok := e.st.cells[a]
+		if !ok {
+			continue
+		}
+		if v.T == nil {
+			v.T = et
+		}
 		return v, true
 	}
-	v, ok := e.st.cells[a]
-	if !ok {
-		return Term{}, false
-	}
-	if v.T == nil {
-		v.T = et
-	}
-	return v, true
+	return Term{}, false
 }
 
 // pkgObject resolves a package-level object (const, var, func) by name, in the
@@ -142,7 +155,7 @@ func (e *Env) pkgObject(pkg, name string) (Term, bool) {
 	fv := e.fv
 	var cands []*ssa.Package
 	if pkg == "" {
-		if fv.Fn.Pkg != nil {
+		if fv.Fn != nil && fv.Fn.Pkg != nil {
 			cands = append(cands, fv.Fn.Pkg)
 		}
 		for _, path := range []string{"github.com/cloudwego/frugal/internal/reflect", "github.com/cloudwego/frugal/internal/defs",
@@ -282,7 +295,7 @@ func (e *Env) addrOf(x Expr) Term {
 	case EIdent:
 		// global variable
 		for _, p := range fv.W.Prog.SSA.AllPackages() {
-			if p != fv.Fn.Pkg && !strings.Contains(p.Pkg.Path(), "cloudwego/frugal") {
+			if (fv.Fn == nil || p != fv.Fn.Pkg) && !strings.Contains(p.Pkg.Path(), "cloudwego/frugal") {
 				continue
 			}
 			if g, ok := p.Members[n.Name].(*ssa.Global); ok {
@@ -404,7 +417,7 @@ func (e *Env) index(n EIndex) Term {
 			e.fail("index into slice of unknown element type")
 		}
 		esz := fv.TE.Sizeof(st.Elem())
-		addr := add(slPtr(x), mul(intLit(esz), i))
+		addr := fv.ix(slPtr(x), i, esz)
 		switch st.Elem().Underlying().(type) {
 		case *types.Struct:
 			addr.T = types.NewPointer(st.Elem())
@@ -427,7 +440,7 @@ func (e *Env) index(n EIndex) Term {
 	if pt, ok := typeOf(x).Underlying().(*types.Pointer); ok {
 		if at, ok := pt.Elem().Underlying().(*types.Array); ok {
 			esz := fv.TE.Sizeof(at.Elem())
-			addr := add(x, mul(intLit(esz), i))
+			addr := fv.ix(x, i, esz)
 			switch at.Elem().Underlying().(type) {
 			case *types.Struct:
 				addr.T = types.NewPointer(at.Elem())
@@ -598,6 +611,13 @@ func (fv *FuncVC) resolveType(s string) (types.Type, string) {
 			return obj.Type(), fv.TE.SortOf(obj.Type())
 		}
 	}
+	if pkg == "" {
+		for _, p := range fv.W.Prog.SSA.AllPackages() {
+			if obj, ok := p.Pkg.Scope().Lookup(name).(*types.TypeName); ok {
+				return obj.Type(), fv.TE.SortOf(obj.Type())
+			}
+		}
+	}
 	fv.abort("unknown type %q in contract", s)
 	return nil, SInt
 }
@@ -748,6 +768,21 @@ func (e *Env) call(n ECall) Term {
 	case "catm":
 		argN(4)
 		return mk(SBSeq, "catm", e.tr(n.Args[0]), e.tr(n.Args[1]), e.tr(n.Args[2]), e.tr(n.Args[3]))
+	case "heap":
+		argN(1)
+		hs, ok := n.Args[0].(EStr)
+		if !ok {
+			e.fail("heap(\"Type.field\")")
+		}
+		return e.heapByName(hs.Val)
+	case "ix":
+		argN(3)
+		c, ok := n.Args[2].(EInt)
+		if !ok {
+			e.fail("ix(base, i, constsize)")
+		}
+		sz, _ := strconv.Atoi(c.Val)
+		return fv.ix(e.tr(n.Args[0]), e.tr(n.Args[1]), int64(sz))
 	case "sel":
 		argN(2)
 		h := e.tr(n.Args[0])
@@ -884,6 +919,42 @@ func (e *Env) specCall(sf *SpecFunc, n ECall) Term {
 		args = append(args, t)
 	}
 	rt, rs := fv.resolveType(sf.Result)
+	if sf.Rec {
+		name := "sp." + sf.Name
+		fv.usedSpecs[sf.Name] = true
+		if !fv.declared[name] {
+			fv.declared[name] = true
+			// define-fun-rec with the body translated over formal parameter symbols;
+			// a rec spec function may only depend on its parameters (heaps are passed explicitly).
+			ne := &Env{fv: fv, st: e.st, old: e.old, vars: map[string]Term{}, callee: true, depth: e.depth + 1, pos: sf.Pos}
+			var ps []string
+			for _, p := range sf.Params {
+				pt, ps2 := fv.resolveType(p.Type)
+				sym := p.Name + "!r"
+				ne.vars[p.Name] = Term{S: sym, Sort: ps2, T: pt}
+				ps = append(ps, fmt.Sprintf("(%s %s)", sym, ps2))
+			}
+			var sorts, syms []string
+			for _, p := range sf.Params {
+				_, ps2 := fv.resolveType(p.Type)
+				sorts = append(sorts, ps2)
+				syms = append(syms, p.Name+"!r")
+			}
+			// uninterpreted function + one-step unfolding axiom triggered on applications
+			// (define-fun-rec is avoided: z3 5.1 was observed to answer unsat spuriously
+			// on recursive definitions combined with quantified lemmas over arrays).
+			fv.decls = append(fv.decls, fmt.Sprintf("(declare-fun %s (%s) %s)", name, strings.Join(sorts, " "), rs))
+			body := ne.tr(sf.Body)
+			if body.Sort != rs {
+				e.fail("spec rec %s: body has sort %s, declared %s", sf.Name, body.Sort, rs)
+			}
+			app := "(" + name + " " + strings.Join(syms, " ") + ")"
+			fv.decls = append(fv.decls, fmt.Sprintf("(assert (forall (%s) (! (= %s %s) :pattern (%s))))", strings.Join(ps, " "), app, body.S, app))
+		}
+		r := mk(rs, name, args...)
+		r.T = rt
+		return r
+	}
 	if sf.UF || sf.Opaque || sf.Body == nil {
 		var sorts []string
 		var all []Term
@@ -954,6 +1025,7 @@ func (e *Env) heapByName(name string) Term {
 		if so, ok := fv.heapSort[name]; ok {
 			return fv.heap(e.st, name, elemSortOf(so))
 		}
+		return fv.heap(e.st, name, SInt)
 	}
 	if i := strings.LastIndex(name, "."); i > 0 {
 		t, _ := fv.resolveType(name[:i])
@@ -1024,6 +1096,17 @@ func (e *Env) modTargets(x Expr) []modTarget {
 			return e.typeTargets(pt.Elem(), p)
 		}
 	case ECall:
+		if n.Fun == "sel" && len(n.Args) == 2 {
+			if hs, ok := n.Args[0].(EStr); ok {
+				h := e.heapByName(hs.Val)
+				_ = h
+				name := hs.Val
+				if !strings.HasPrefix(name, "P.") && !strings.HasPrefix(name, "H.") && name != "M" {
+					e.fail("sel(\"P.x\"|\"H.T.f\", addr) expected")
+				}
+				return []modTarget{{heap: name, addr: e.tr(n.Args[1])}}
+			}
+		}
 		if n.Fun == "fields" && len(n.Args) == 1 {
 			p := e.tr(n.Args[0])
 			pt, ok := typeOf(p).Underlying().(*types.Pointer)
@@ -1039,7 +1122,7 @@ func (e *Env) modTargets(x Expr) []modTarget {
 		if base.Sort == SSlice {
 			st := typeOf(base).Underlying().(*types.Slice)
 			esz := fv.TE.Sizeof(st.Elem())
-			return e.typeTargets(st.Elem(), add(slPtr(base), mul(intLit(esz), i)))
+			return e.typeTargets(st.Elem(), fv.ix(slPtr(base), i, esz))
 		}
 	case ESlice:
 		if id, ok := n.X.(EIdent); ok && id.Name == "M" {
@@ -1177,6 +1260,10 @@ func (fv *FuncVC) dummyEnv(fc *FuncContract) *Env {
 // frameAxiom: nh agrees with old outside the targets of the given modifies clauses (for heap hn).
 func (fv *FuncVC) frameAxiom(env *Env, hn string, old, nh Term, clauses []Clause) Term {
 	var conds []string
+	if !strings.HasPrefix(hn, "ghost:") {
+		// memory allocated after the frame's reference point is never part of the caller's footprint
+		conds = append(conds, fmt.Sprintf("(< a!f %s)", fv.ghostVal(env.st, "$brk").S))
+	}
 	for _, c := range clauses {
 		env.pos = c.Pos
 		for _, t := range env.modTargets(c.E) {
@@ -1192,9 +1279,6 @@ func (fv *FuncVC) frameAxiom(env *Env, hn string, old, nh Term, clauses []Clause
 				conds = append(conds, fmt.Sprintf("(not (= a!f %s))", t.addr.S))
 			}
 		}
-	}
-	if len(conds) == 0 {
-		return eq(nh, old)
 	}
 	g := conds[0]
 	if len(conds) > 1 {
